@@ -305,6 +305,11 @@ func (tr *Trace) stress(id, off int) {
 	}
 }
 
+// InitialState is the store the InitState options of a case with Init=n set up.
+func InitialState(n int) map[string]any {
+	return map[string]any{"n": n, "box": &Box{Items: []int{n}}, "k" + strconv.Itoa(n%3): "init"}
+}
+
 // StateN reads the counter n.
 func StateN(st map[string]any) int {
 	n, _ := st["n"].(int)
